@@ -65,6 +65,19 @@ func c04RleList(l [][]byte) string {
 	return strings.Join(parts, ";")
 }
 
+// c04ScribbleReader: the io.Reader contract lets Read use ALL of p as scratch space even when it returns n < len(p).
+// After every Read this wrapper overwrites p[n:] with '\n' bytes (the most tempting garbage for a line scanner): a
+// scanner that looks at, hands out or counts bytes beyond what Read reported would split differently.
+type c04ScribbleReader struct{ r *scriptedReader }
+
+func (c *c04ScribbleReader) Read(p []byte) (int, error) {
+	n, err := c.r.Read(p)
+	for i := n; i < len(p); i++ {
+		p[i] = '\n'
+	}
+	return n, err
+}
+
 // c04RunBig handles the ops `big <imm|buf|sync> <size|batchSize> <rle data> <script>` and
 // `nocb <imm|buf> <size> <hex data> <script>` (no OnError callback installed).
 func c04RunBig(f []string) string {
@@ -124,6 +137,32 @@ func c04RunBig(f []string) string {
 			atReturn = append(atReturn, append([]byte{}, b...))
 		}
 		return fmt.Sprintf("ok errs=%d done=%d t=%s r=%s", errs, done, c04RleList(atReturn), c04RleList(held))
+	case "scr":
+		size, _ := strconv.Atoi(f[2])
+		data := append([]byte{}, UnHex(f[3])...)
+		srd := &scriptedReader{rest: data, script: parseScript(f[4])}
+		rd := &c04ScribbleReader{srd}
+		var sc readahead.Scanner
+		if f[1] == "imm" {
+			sc = readahead.NewImmediate(rd, size)
+		} else {
+			sc = readahead.NewBuffered(rd, size)
+		}
+		errs := 0
+		sc.OnError(func(error) { errs++ })
+		var held, atReturn [][]byte
+		limit := len(data) + len(srd.script) + 3
+		done := 0
+		for i := 0; i < limit; i++ {
+			if !sc.Scan() {
+				done = 1
+				break
+			}
+			b := sc.Bytes()
+			held = append(held, b)
+			atReturn = append(atReturn, append([]byte{}, b...))
+		}
+		return fmt.Sprintf("ok errs=%d done=%d t=%s r=%s", errs, done, HexList(atReturn), HexList(held))
 	case "nocb":
 		size, _ := strconv.Atoi(f[2])
 		data := append([]byte{}, UnHex(f[3])...)
@@ -239,9 +278,9 @@ func c04GenBig(r *Rand, tier string) []string {
 		out = append(out, fmt.Sprintf("big %s %d %s %s", kind, arg, data, sc))
 	}
 	// no OnError callback
-	m := 60
+	m := 120
 	if tier == "thorough" {
-		m = 6000
+		m = 12000
 	}
 	alpha := []byte{'a', '\n', '\r', 'b', '\n'}
 	for i := 0; i < m; i++ {
@@ -261,7 +300,11 @@ func c04GenBig(r *Rand, tier string) []string {
 			steps = append(steps, fmt.Sprintf("%d:n", r.Intn(4)))
 		}
 		steps = append(steps, fmt.Sprintf("%d:%s", r.Intn(5), Pick(r, []string{"f", "f", "e", "n"})))
-		out = append(out, fmt.Sprintf("nocb %s %d %s %s", kind, size, Hex(d), strings.Join(steps, ",")))
+		op := "nocb"
+		if i%2 == 1 {
+			op = "scr" // same shapes through the scribbling reader (short reads leave room to scribble on)
+		}
+		out = append(out, fmt.Sprintf("%s %s %d %s %s", op, kind, size, Hex(d), strings.Join(steps, ",")))
 	}
 	return out
 }
